@@ -65,15 +65,16 @@ impl Harness {
     }
 
     /// one valid filler message the session tolerates in any state
-    fn filler(&mut self, rng: &mut Rng) -> Vec<u8> {
-        let m = match rng.below(6) {
+    fn filler(&mut self, rng: &mut Rng, want: usize) -> Vec<u8> {
+        // when a lot of bytes is needed, mostly large opaque messages (cheap to generate)
+        let m = match if want > 4000 && rng.chance(7, 8) { 4 } else { rng.below(6) } {
             0 => RMsg::UserControl(6, vec![rng.u32()]),  // ping request (answered)
             1 => RMsg::UserControl(7, vec![rng.u32()]),  // ping response
             2 => RMsg::Ack(rng.u32()),
             3 => RMsg::UserControl(0, vec![rng.below(4) as u32]),
             4 => {
-                let n = rng.usize(0, 300);
-                RMsg::Unknown(22, rng.bytes(n))
+                let n = if want > 4000 { rng.usize(1000, 20_000) } else { rng.usize(0, 300) };
+                RMsg::Unknown(22, vec![0x16; n])
             }
             _ => match rng.below(6) {
                 // every other control message a peer may legitimately send, with values around
@@ -131,7 +132,7 @@ fn run_history(server: bool, announcements: &[(usize, u32)], calls: &[usize], rn
         }
         let need = if ann.is_some() { n.max(pending.len()) } else { n };
         while pending.len() < need {
-            let f = h.filler(rng);
+            let f = h.filler(rng, need - pending.len());
             pending.extend(f);
         }
         let piece: Vec<u8> = pending.drain(..need).collect();
@@ -360,7 +361,7 @@ impl Check for C17 {
         "C17"
     }
     fn plan(&self, tier: Tier) -> Plan {
-        let mut p = Plan::new(2 + Self::exhaustive_cases() + tier.pick(30_000, 3_000_000), tier.pick(35.0, 420.0));
+        let mut p = Plan::new(2 + Self::exhaustive_cases() + tier.pick(6_000, 3_000_000), tier.pick(35.0, 420.0));
         p.mandatory = 2 + Self::exhaustive_cases();
         p.cpu_budget_s = 240.0;
         p
@@ -411,7 +412,7 @@ impl Check for C17 {
             _ => rng.range(1, 5000) as u32,
         };
         let ncalls = rng.usize(2, 40);
-        let cap = 300_000usize;
+        let cap = 100_000usize;
         let mut calls = vec![rng.usize(0, 100)];
         let mut ann = vec![(rng.usize(0, 1), w)];
         let mut cur = w;
@@ -441,7 +442,7 @@ impl Check for C17 {
         out.sample(|| json!({"session": if server {"server"} else {"client"}, "announcements(call,W)": ann, "call_sizes": calls}));
     }
     fn rule(&self) -> String {
-        "both session kinds; the peer stream is reference-encoded: WindowAcknowledgement(W) at the start of a chosen call followed by valid filler traffic (ping requests/responses, acknowledgements, stream-begin and the other user-control events, set-buffer-length, unknown type-22 messages, set-peer-bandwidth of all three limit types with sizes around typical windows, abort, set-chunk-size). Exhaustive: W = 1..64 x every call-size pattern of length 1..4 over {0, 1, W-1, W, W+1} x {server, client} (99,840 histories). Sampled: W from {1..64, 65..1000, 10^3..10^6, 2^24, 2^31, 2^32-1, 2.5M}, 2-40 calls with sizes from {0,1,W-1,W,W+1,2W+3,random} (capped at 300,000 bytes), window re-announcements mid-stream. Volume: W = 2^32-1 and (2^32-1) + 48 MiB bytes (thorough: 2 x (2^32-1) + 48 MiB) in 16 MiB calls for each session kind. The acknowledgements of every call are extracted by independently decoding the returned packets. distinct = (session kind, window class, #announcements, #calls).".to_string()
+        "both session kinds; the peer stream is reference-encoded: WindowAcknowledgement(W) at the start of a chosen call followed by valid filler traffic (ping requests/responses, acknowledgements, stream-begin and the other user-control events, set-buffer-length, unknown type-22 messages, set-peer-bandwidth of all three limit types with sizes around typical windows, abort, set-chunk-size). Exhaustive: W = 1..64 x every call-size pattern of length 1..4 over {0, 1, W-1, W, W+1} x {server, client} (99,840 histories). Sampled: W from {1..64, 65..1000, 10^3..10^6, 2^24, 2^31, 2^32-1, 2.5M}, 2-40 calls with sizes from {0,1,W-1,W,W+1,2W+3,random} (capped at 100,000 bytes), window re-announcements mid-stream. Volume: W = 2^32-1 and (2^32-1) + 48 MiB bytes (thorough: 2 x (2^32-1) + 48 MiB) in 16 MiB calls for each session kind. The acknowledgements of every call are extracted by independently decoding the returned packets. distinct = (session kind, window class, #announcements, #calls).".to_string()
     }
     fn assumptions(&self) -> Vec<String> {
         vec![
